@@ -16,14 +16,14 @@ CLAIMED = {
  },
  "C07": {
   "category": "exploration",
-  "text": "Seeded search over operation histories {parse_record, parse_record_nocopy, reset} produced by a simulated record layer (arbitrary k-way splits, empty fragments, foreign-type interleaving, duplicates, oversize streams up to the 10 MiB bound, consumer resets) against one real TlsRecordsParser; every call is compared with an executable accumulate-then-parse reference model (result class, error kind, Needed, messages, remainder, defrag_in_progress, buffer length and content via the guarded hook, slice provenance), plus a history-level split-group oracle that is independent of the model's state tracking. The component is stateful and the property quantifies over call histories, which is what a simulator with a reference model decides; a clean batch is evidence from sampled histories, not a proof.",
+  "text": "Seeded search over operation histories {parse_record, parse_record_nocopy, reset} produced by a simulated record layer (arbitrary k-way splits, empty fragments, foreign-type interleaving, duplicates, oversize streams up to the 10 MiB bound, consumer resets) against one real TlsRecordsParser; every call is compared with an executable accumulate-then-parse reference model (Ok / Incomplete / rejection with the stated ErrorKind, messages, remainder, defrag_in_progress, buffer length and content while a defragmentation is in progress via the guarded hook, slice provenance), plus a history-level split-group oracle that is independent of the model's state tracking. The component is stateful and the property quantifies over call histories, which is what a simulator with a reference model decides; a clean batch is evidence from sampled histories, not a proof.",
   "design_ref": "DESIGN.md section 3 (C07)",
   "note": "Trusted base: the reference model (about 60 lines) delegates single-payload parsing to the real parse_tls_record_with_header, so C07 is checked as refinement of accumulation, not of payload decoding; heartbeat accumulations > 65535 bytes are unconstrained; the hook accessor verif_defrag_buffer is assumed to return the live buffer.",
   "technique": "deterministic simulation: seeded operation histories with fault injection, call-by-call refinement against an executable reference model",
  },
  "C02": {
   "category": "fault_enumeration",
-  "text": "Every cut point of every sampled record stream: the simulated byte pipe delivers each stream under seeded segmentation schedules, of which the dribble and boundary-dribble schedules deliver one byte per event and thereby enumerate every prefix length 0..=5+len (with and without in-flight trailing bytes) of every record in the run; at each delivery event the three record parsers and the header parser are compared with a ten-line reference framer (Incomplete iff strict prefix, exact Needed once the header is there, TooLarge above 2^14+256 whatever follows, verbatim header fields, payload and remainder by address) and a Needed-driven reader must emit every complete record. The property is a relation over all cut points of a stream, i.e. over what a delivery schedule chooses, so enumerating the schedule's fault points per sampled record is the right level; the records themselves (types, versions, lengths) are sampled with boundary bias.",
+  "text": "Every cut point of every sampled record stream: the simulated byte pipe delivers each stream under seeded segmentation schedules, of which the dribble and boundary-dribble schedules deliver one byte per event and thereby enumerate every prefix length 0..=5+len (with and without in-flight trailing bytes) of every record in the run; at each delivery event the three record parsers are compared with a ten-line reference framer (Incomplete iff strict prefix, exact Needed once the header is there, TooLarge above 2^14+256 whatever follows, verbatim header fields, payload and remainder by address) and a Needed-driven reader must emit every complete record. The property is a relation over all cut points of a stream, i.e. over what a delivery schedule chooses, so enumerating the schedule's fault points per sampled record is the right level; the records themselves (types, versions, lengths) are sampled with boundary bias.",
   "design_ref": "DESIGN.md section 3 (C02)",
   "note": "Trusted base: the reference framer; streams are sampled (all 256 content types and boundary lengths are biased, not exhausted); records of 16 KiB are enumerated only around their boundaries (boundary-dribble) in most runs.",
   "technique": "deterministic simulation: seeded byte-stream delivery schedules enumerating every cut point, reference-framer oracle at every delivery event, Needed-driven reader liveness",
@@ -37,7 +37,7 @@ CLAIMED = {
  },
  "C08": {
   "category": "exploration",
-  "text": "tls_state_transition judges a two-party conversation seen by a passive third party, so the check simulates the peers (seeded walks through the documented flow grammar), the network to the tap (per-direction latency on a simulated clock, giving cross-direction skew) and a message-level fault layer (loss, duplication, reordering, direction flip, injection of any kind, alert/HelloRequest injection, mid-stream pickup in any of the 25 states), and compares every step of every history with a reference flow acceptor; because the comparison is per step from whatever state the history reached, each step decides one cell of the 25 x 2 x 23 relation, and the evidence reports how many of the 1150 cells were hit (all of them in the quick tier). Histories and message contents are sampled: evidence, not proof.",
+  "text": "tls_state_transition judges a two-party conversation seen by a passive third party, so the check simulates the peers (seeded walks through the documented flow grammar), the network to the tap (per-direction latency on a simulated clock, giving cross-direction skew) and a message-level fault layer (loss, duplication, reordering, direction flip, injection of any kind, alert/HelloRequest injection, mid-stream pickup in any of the 25 states), and compares every step of every history with a reference flow acceptor at the level the property is stated (accepted vs rejected with InvalidTransition, plus the named-state clauses; the real state value and the acceptor's state are tracked side by side, so a wrong landing state shows as soon as its future differs); because the comparison is per step from whatever state the history reached, each step decides one cell of the 25 x 2 x 23 relation, and the evidence reports how many of the 1150 cells were hit (all of them in the quick tier). Histories and message contents are sampled: evidence, not proof.",
   "design_ref": "DESIGN.md section 3 (C08)",
   "note": "Trusted base: the reference acceptor is a transcription of the documented flows and of the property statement by the same author as the harness (limited independence); message contents within a kind are sampled.",
   "technique": "deterministic simulation: seeded two-peer conversations with message-level fault injection, step-by-step agreement with a reference flow acceptor",
